@@ -279,6 +279,92 @@ def eval_unary(shape, pattern, st):
 
 
 # ---------------------------------------------------------------------------
+# callables that are not functions: the annotations belong to the function behind them
+
+OBJECTS_SRC = '''
+import functools
+
+
+class K(object):
+    def __call__(self, a: T, b: T = None) -> T:
+        return a
+
+
+class D(object):
+    def __init__(self, a: T, b: T = None):
+        pass
+
+
+class N(object):
+    def __new__(cls, a: T, b: T = None):
+        return object.__new__(cls)
+
+
+class Sub(D):
+    pass
+
+
+class H(object):
+    @staticmethod
+    def sm(a: T, b: T = None) -> T:
+        return a
+
+    @classmethod
+    def cm(cls, a: T, b: T = None) -> T:
+        return a
+
+    def m(self, a: T, b: T = None) -> T:
+        return a
+'''
+OBJECTS = (('callable instance', lambda ns: ns['K']()), ('bound __call__', lambda ns: ns['K']().__call__),
+           ('class with __init__', lambda ns: ns['D']), ('class with __new__', lambda ns: ns['N']),
+           ('subclass inheriting __init__', lambda ns: ns['Sub']),
+           ('staticmethod through the class', lambda ns: ns['H'].sm), ('classmethod through the class', lambda ns: ns['H'].cm),
+           ('bound method', lambda ns: ns['H']().m), ('partial of a callable instance', lambda ns: functools.partial(ns['K'](), 1)),
+           ('partial of a class', lambda ns: functools.partial(ns['D'], b=1)), ('partial of a bound method', lambda ns: functools.partial(ns['H']().m, 1)))
+
+
+def eval_objects(st):
+    results = {}
+    for future in (False, True):
+        T = Obj('T')
+        ns = {'__name__': 'vfc11obj', 'T': T}
+        exec(compile(('from __future__ import annotations\n' if future else '') + OBJECTS_SRC, '<vf:c11obj>', 'exec'), ns)
+        for label, make in OBJECTS:
+            for route, getter in (('sigtools.signature', sigtools.signature), ('signatures.signature', S.signature)):
+                st.inc('states')
+                st.inc('transitions')
+                obj = make(ns)
+                case = {'op': 'object', 'object': label, 'route': route, 'future': future}
+                try:
+                    sig = getter(obj)
+                except Exception as e:  # noqa: totality is C07's
+                    results[(label, route, future)] = ('raise', type(e).__name__)
+                    continue
+                probs = resolution_problems(sig, lambda n: T, T)
+                if probs:
+                    under = obj.func if isinstance(obj, functools.partial) else obj
+                    feat = {'op': 'object'}
+                    if not hasattr(under, '__code__') and all("is <class 'inspect._empty'>" in p_ or 'reports <class' in p_ for p_ in probs):
+                        # classes and callable instances have no code object of their own: their annotations are not upgraded
+                        feat = {'cause': 'annotations-of-a-callable-without-code-object-not-upgraded'}
+                    st.violation('annotation-resolves-outside-its-defining-context', case,
+                                 {'operation': '%s(%s)' % (route, label), 'compiled': 'postponed' if future else 'eager',
+                                  'result': str(sig), 'problems': probs[:4]}, feat)
+                try:
+                    results[(label, route, future)] = ('ok', render(sig))
+                except Exception as e:  # noqa
+                    results[(label, route, future)] = ('evaluated-raises', type(e).__name__)
+    for (label, route, future), r in sorted(results.items()):
+        if future and r != results.get((label, route, False)):
+            st.violation('postponed-differs-from-eager-twin', {'op': 'object', 'object': label, 'route': route},
+                         {'operation': '%s(%s)' % (route, label), 'postponed': repr(r)[:300],
+                          'eager': repr(results.get((label, route, False)))[:300]}, {'cause': 'other', 'op': 'object'})
+        if not future:
+            st.seen('result', ('object', label, route, r))
+
+
+# ---------------------------------------------------------------------------
 # discovery across modules with different globals and compile modes
 
 def discovery_sources(future_w, future_c):
@@ -342,6 +428,7 @@ def shard(tier, sh):
     st = runner.Stats()
     if kind == 'discovery':
         eval_discovery(st)
+        eval_objects(st)
         return st
     if kind == 'unary':
         shapes = [s for s in space.universe(2, 'ab') if space.name_sorted(s)]
@@ -394,7 +481,9 @@ def run(tier, seed):
 def replay(art):
     c = art['case']
     st = runner.Stats()
-    if c['op'] == 'discovery':
+    if c['op'] == 'object':
+        eval_objects(st)
+    elif c['op'] == 'discovery':
         eval_discovery(st)
     elif len(c['shapes']) == 1:
         eval_unary(space.from_json(c['shapes'][0]), c['patterns'][0], st)
